@@ -1,4 +1,5 @@
 import PGM.Proofs.LocalSem
+import PGM.Proofs.ExactDisjoint
 /-!
 # C18 — approximate (local) estimation is valid, and exact when nothing is relaxed
 
@@ -122,5 +123,45 @@ theorem post_phase (O : Ops α Θ M G σ) (theta : Θ) (n : Nat) (mu : M) (st : 
 the late step-halving branch only touches the step size -/
 theorem no_damping_no_bump (O : Ops α Θ M G σ) (h : O.bump = none) (st : σ) : applyBump O st = st := by
   simp [applyBump, h]
+
+/-! ## when nothing is relaxed the oracles coincide with exact inference -/
+section exact
+open PGM.JT PGM.GM PGM.Sem PGM.ExactDisjoint
+
+/-! **disjoint measured cliques: local and global consistency coincide.**  On every valid junction tree for the
+family, exact inference (`GM.beliefPropagation`, C01) and each of the three approximate oracles return the same
+table for every clique, for every sweep count and message state: approximate and exact estimation run their
+descent over the same marginal map (that both then reach the optimum is the tested convergence clause) -/
+/-- **the exact oracle and the approximate oracles coincide on a disjoint family**: exact
+junction-tree belief propagation (C01) on *any* junction tree and schedule accepted by the checker
+for the family, run on the exp-space image of the potentials with total `T`, returns on every
+clique a table over that clique's attributes whose cells are those returned by generalised belief
+propagation, by the convex oracle and by loopy belief propagation -/
+theorem exact_eq_approx_disjoint (d : Dom) (cliques : List Clique) (t : Tree)
+    (order : List (Clique × Clique)) (pots : CliqueVec ℝ)
+    (hok : ModelOK d cliques t order (expPots pots))
+    (hdis : Oracle.Disjoint cliques) (hne : ∀ c ∈ cliques, c ≠ [])
+    (hpot : ∀ p ∈ pots, p.2.WF ∧ p.2.dom = d.project p.1)
+    (T : ℝ) (hT : 0 < T) (i₁ i₂ i₃ : Nat) (rho conv : ℝ) (hi : 0 < i₂) (m₁ m₂ : RG.Msgs ℝ)
+    (c : Clique) (hc : c ∈ cliques) (σ : Attr → Nat) (hσ : d.Valid σ) :
+    ((GM.beliefPropagation cliques order (expPots pots) ⟨T⟩).get c).dom.attrs = c ∧
+    (((GM.beliefPropagation cliques order (expPots pots) ⟨T⟩).get c).sem σ).v
+      = ((RG.gbp d (RG.build cliques false true) pots T i₁ m₁).1.get c).sem σ ∧
+    (((GM.beliefPropagation cliques order (expPots pots) ⟨T⟩).get c).sem σ).v
+      = ((RG.hps d (RG.build cliques true true) (fun _ => 1) pots T i₂ rho conv m₂).1.get c).sem σ ∧
+    (((GM.beliefPropagation cliques order (expPots pots) ⟨T⟩).get c).sem σ).v
+      = ((FG.lbp d cliques pots T i₃ (FG.initMessages d cliques)).1.get c).sem σ :=
+  PGM.ExactDisjoint.exact_eq_approx_disjoint d cliques t order pots hok hdis hne hpot T hT i₁ i₂ i₃ rho conv hi m₁ m₂ c hc σ hσ
+
+end exact
+
+/-- two oracles that agree as functions drive `mirror_descent_auto` identically -/
+theorem mda_congr_oracle (O O' : Ops α Θ M G σ) (hbp : O.bp = O'.bp) (hl : O.loss = O'.loss) (hu : O.upd = O'.upd)
+    (hf : O.feasible = O'.feasible) (hb : O.bump = O'.bump) (hg : O.gt = O'.gt) (hh : O.half = O'.half)
+    (theta0 : Θ) (st0 : σ) (iters fuel k : Nat) (alpha : α) :
+    mda O theta0 st0 iters fuel k alpha = mda O' theta0 st0 iters fuel k alpha := by
+  have : O = O' := by
+    cases O; cases O'; simp_all
+  rw [this]
 
 end PGM.C18
